@@ -1878,7 +1878,9 @@ fn parse_year<'a, T: FnMut() -> chrono::NaiveDateTime>(
         2 => {
             let input_len = input.len();
             let (negative, year, rem) = parse_number(input, 4)?;
-            if input_len - rem.len() > 2 {
+            // Only digits count towards a full year, not a leading sign.
+            let sign_len = matches!(input.first(), Some(b'+') | Some(b'-')) as usize;
+            if input_len - rem.len() - sign_len > 2 {
                 Ok((negative, year, rem))
             } else {
                 let now = get_now();
